@@ -229,6 +229,14 @@ func (p *ParagraphReader) Next() (*Paragraph, error) {
 			 * right hand, because indentation under the whitespace is up to
 			 * the data format. Not us. */
 
+			if len(paragraph.Order) == 0 {
+				/* There's no field to continue yet. */
+				return nil, fmt.Errorf(
+					"Bad line: '%s' is a continuation line without a field",
+					strings.TrimRightFunc(line, unicode.IsSpace),
+				)
+			}
+
 			/* TrimFunc(line[1:], unicode.IsSpace) is identical to calling
 			 * TrimSpace. */
 			line = strings.TrimRightFunc(line[1:], unicode.IsSpace)
